@@ -11,7 +11,7 @@ from sa import report
 from concurrent.futures import ThreadPoolExecutor
 load_rules()
 known = {k['key'] for k in report.load_known()['findings']}
-names = sys.argv[1:] or sorted(os.listdir(os.path.join(V, 'seeded')))
+names = sys.argv[1:] or sorted(n for n in os.listdir(os.path.join(V, 'seeded')) if os.path.exists(os.path.join(V, 'seeded', n, 'meta.json')))
 
 def work(name):
     d = os.path.join(V, 'seeded', name)
